@@ -223,6 +223,29 @@ pub fn spaces(tier: Tier) -> Vec<Space<'static>> {
             }
         }));
     }
+    // texts whose numbers have a spelling the model printer never writes (-0, exponent forms, padded
+    // fractions): what they denote decides (one zero, whatever its sign was written as)
+    {
+        let raw: Vec<&str> = vec!["[0,-0]", "[-0,0,0.0]", "-0", "0", "[[-0],[0]]", "[1e0,1,1.0,10e-1]", "[1.50,1.5,15e-1]", "[{\"a\":-0},{\"a\":0}]", "[-0.0,0.0,-0]"];
+        let items: Arc<Vec<(String, RVal)>> = Arc::new(raw.into_iter().map(|s| (s.to_string(), refmodel::text::relaxed_json(s.as_bytes()).expect("model parses").val)).collect());
+        sp.push(Space::new("texts with number spellings the printer never writes (-0, exponents, padded fractions)", items.len() as u64, move |i, acc| {
+            let (si, vi) = &items[i as usize];
+            let ctx = || json!({"a_text": si});
+            acc.nontrivial += 1;
+            call("text-spellings:distinct", |buf| jsonb::array_distinct(si.as_bytes(), buf), &ops::array_distinct(vi), acc, &ctx);
+            for (sj, vj) in items.iter() {
+                let ctx = || json!({"a_text": si, "b_text": sj});
+                let bj = enc(vj);
+                call("text-spellings:intersection", |buf| jsonb::array_intersection(si.as_bytes(), sj.as_bytes(), buf), &ops::array_intersection(vi, vj), acc, &ctx);
+                call("text-spellings:except", |buf| jsonb::array_except(si.as_bytes(), &bj, buf), &ops::array_except(vi, vj), acc, &ctx);
+                acc.eval();
+                match guard(|| jsonb::array_overlap(&enc(vi), sj.as_bytes())) {
+                    Ok(Ok(o)) if o == ops::array_overlap(vi, vj) => {}
+                    other => acc.vio("text-spellings:overlap:differs-from-multiset-model", || json!({"ctx": ctx(), "observed": format!("{:?}", other.map_err(|p| panic_class(&p)))})),
+                }
+            }
+        }));
+    }
     // size sweep: every N up to the limit, list with many duplicates against three related lists
     let sz = Arc::new(crate::checks::scale::sizes_heavy(tier));
     sp.push(Space::new("size sweep: N-element lists with duplicates", sz.len() as u64, move |i, acc| {
